@@ -6,6 +6,7 @@ package c02
 import (
 	"fmt"
 	"hash/fnv"
+	"regexp"
 	"sort"
 	"strings"
 
@@ -37,7 +38,7 @@ func strOf(seed uint64, salt int) string {
 	case 1:
 		return "x"
 	case 2:
-		return strings.Repeat("ab", 130+int(seed%7)) // > 255 bytes
+		return strings.Repeat("ab", 110+int(seed%7))
 	case 3:
 		return "пример-ünï"
 	case 4:
@@ -363,7 +364,9 @@ func fmtVal(v any) string {
 	return fmt.Sprintf("%v", v)
 }
 
-func (d *dumper) row(rr istructs.IRowReader, q appdef.QName) rowDump {
+// keepEmpty: CUD rows store which string/bytes fields were emptied; argument objects do not (an
+// empty value of an argument field reads the same as an absent one), so they are left out there
+func (d *dumper) row(rr istructs.IRowReader, q appdef.QName, keepEmpty bool) rowDump {
 	rd := rowDump{qname: q}
 	if q == appdef.NullQName {
 		rd.text = "null"
@@ -390,7 +393,6 @@ func (d *dumper) row(rr istructs.IRowReader, q appdef.QName) rowDump {
 		case appdef.SystemField_IsActive:
 			active = v.(bool)
 		default:
-			fields = append(fields, f.Name()+"="+fmtVal(v))
 			empty := false
 			switch x := v.(type) {
 			case string:
@@ -398,7 +400,10 @@ func (d *dumper) row(rr istructs.IRowReader, q appdef.QName) rowDump {
 			case []byte:
 				empty = len(x) == 0
 			}
-			if empty {
+			if !empty || keepEmpty {
+				fields = append(fields, f.Name()+"="+fmtVal(v))
+			}
+			if empty && keepEmpty {
 				for i, uf := range userFields {
 					if uf.Name() == f.Name() {
 						rd.emptied = append(rd.emptied, uint64(i))
@@ -418,7 +423,7 @@ func (d *dumper) row(rr istructs.IRowReader, q appdef.QName) rowDump {
 }
 
 func (d *dumper) object(o istructs.IObject) (text, coq string) {
-	rd := d.row(o, o.QName())
+	rd := d.row(o, o.QName(), false)
 	var texts, coqs []string
 	if o.QName() != appdef.NullQName {
 		for c := range o.Children() {
@@ -434,6 +439,16 @@ type eventDump struct {
 	Text   string
 	Coq    string
 	Digest uint64
+	// digest of the text without the ICUDRow.IsActivated/IsDeactivated flags (to recognise C02-F3)
+	DigestNoFlags uint64
+}
+
+var flagsRe = regexp.MustCompile(` act=(true|false) deact=(true|false)`)
+
+func digest(s string) uint64 {
+	h := fnv.New64a()
+	h.Write([]byte(s))
+	return h.Sum64() >> 1
 }
 
 func nlist(xs []uint64) string {
@@ -473,8 +488,8 @@ func (r *rig) dump(ev istructs.IDbEvent) (eventDump, error) {
 		fmt.Fprintf(&sb, " err=%q orig=%s", errStr, errName)
 		if !hasUnl {
 			errBytes = e.OriginalEventBytes()
-			fmt.Fprintf(&sb, " bytes=%x", errBytes)
 		}
+		fmt.Fprintf(&sb, " bytes=%x", errBytes)
 	} else {
 		argT, argC = d.object(ev.ArgumentObject())
 		if hasUnl {
@@ -486,8 +501,8 @@ func (r *rig) dump(ev istructs.IDbEvent) (eventDump, error) {
 		}
 		var ups []upd
 		ev.CUDs(func(c istructs.ICUDRow) bool {
-			rd := d.row(c, c.QName())
-			coq := fmt.Sprintf("(mkCud %s %s)", rd.coq, nlist(rd.emptied))
+			rd := d.row(c, c.QName(), true)
+			coq := fmt.Sprintf("(mkCud %s %s %s)", rd.coq, nlist(rd.emptied), kit.Bool(c.IsActivated() || c.IsDeactivated()))
 			if c.IsNew() {
 				creates = append(creates, coq)
 				cudTexts = append(cudTexts, "new:"+rd.text)
@@ -517,7 +532,6 @@ func (r *rig) dump(ev istructs.IDbEvent) (eventDump, error) {
 	if d.err != nil {
 		return eventDump{}, d.err
 	}
-	h := fnv.New64a()
-	h.Write([]byte(sb.String()))
-	return eventDump{Text: sb.String(), Coq: coq, Digest: h.Sum64() >> 1}, nil
+	text := sb.String()
+	return eventDump{Text: text, Coq: coq, Digest: digest(text), DigestNoFlags: digest(flagsRe.ReplaceAllString(text, ""))}, nil
 }
